@@ -17,8 +17,8 @@ RULE = ("seeded tabular worlds: daily feature / price / rate tables of 30-120 ro
         "transformers (none, z-score, yeo-johnson), clip 0.5-5, spread 0-2%, NYSE and 24/7 calendars (dates straddling real "
         "holidays), start/end bounds, folds, delay, latency; the real TradingEnvXY is built and a full episode is run. At reset "
         "and after every step: observation == last `window` rows of the published table at or before now, thinned by the "
-        "stride, of the declared shape and inside the bounds; quotes == given prices widened by the spread (last valid price "
-        "for a missing cell); rate book == given rate at or before now; visited dates are price-table dates that are not "
+        "stride, of the declared shape and inside the bounds; quotes == given prices widened by the spread (for a missing cell: "
+        "the last given price, or no quote at all); rate book == given rate at or before now; visited dates are price-table dates that are not "
         "holidays, consecutive among those, with a full window of published rows. Non-trivial: >=5 steps and >=1 probe; "
         "distinct = (fault set, window, stride, transformer, calendar, spread class, folds, bounds)")
 ASSUMPTIONS = [
@@ -93,6 +93,11 @@ def execute(scenario):
         for k, r in enumerate(recs):
             stats["ops"] += 1
             if r.get("exc"):
+                prev_books = recs[k - 1]["books"] if k > 0 and not recs[k - 1].get("exc") else {}
+                if r["exc"] == "ValueError" and any(b[0] != b[0] or b[1] != b[1] for b in prev_books.values()):
+                    # an asset without any given price so far cannot be traded: the step fails loudly (C13), the data is served correctly
+                    probe("step_refused_missing_price")
+                    break
                 violate("unexpected_exception", "step {} raised {}: {}".format(k - 1, r["exc"], r.get("msg")), op=k, exc=r["exc"], where="step")
                 break
             stats["steps"] += 1
@@ -121,10 +126,14 @@ def execute(scenario):
                 p = EY[col].loc[:t].dropna()
                 if len(p) == 0:
                     continue
-                if pd.isna(EY[col].loc[t]) if t in EY.index else True:
-                    probe("y_nan_cells")
-                p = float(p.iloc[-1])
                 bid, ask = r["books"][str(col.symbol)]
+                if pd.isna(EY[col].loc[t]) if t in EY.index else True:
+                    # no price given at this date: the statement fixes nothing; the book may still be empty
+                    # (markov reset) or hold the last given price - but never anything else
+                    probe("y_nan_cells")
+                    if bid != bid and ask != ask:
+                        continue
+                p = float(p.iloc[-1])
                 if not (abs(bid - p * (1 - spread / 2)) <= 1e-12 * abs(p) and abs(ask - p * (1 + spread / 2)) <= 1e-12 * abs(p)):
                     violate("quotes", "at {} the book of {} is {}:{} but the given price {} widened by the spread {} is {}:{}".format(
                         t, col, bid, ask, p, spread, p * (1 - spread / 2), p * (1 + spread / 2)), op=k, kind="spread" if abs((bid + ask) / 2 - p) <= 1e-9 * p else "price")
